@@ -221,7 +221,7 @@ def build(x):
         let ghost k0 = self.map.keys();
         let ghost v0 = self.map.vals();
 ''')
-    rs.insert_after(re.compile(r'self\.front = None;'), '''
+    rs.insert_after('self.map.set_all_none();', '''
         proof {
             let n = k0.len() as int;
             let v1 = self.map.vals();
